@@ -24,6 +24,7 @@ Record bdc_case := {
   bdc_data : list Z; bdc_hdr : list Z;    (* .dat and .idx as written by the real code *)
   bdc_open_out : bdc_open;
   bdc_looks : list (list Z * bdc_out);
+  bdc_session : list (list Z * bdc_out);  (* lookups one after the other on ONE open handle *)
   bdc_cuts : list bdc_cut }.
 
 Definition bdc_bytes_eqb := list_eqb Z.eqb.
@@ -97,6 +98,8 @@ Definition bdc_check (c : bdc_case) : bool :=
   bdc_bytes_eqb hfile (bdc_hdr c) &&
   bdc_open_eqb op (bdc_open_out c) &&
   bdc_looks_ok c buf disk (bdc_looks c) &&
+  (* the model's Read is a function of (files, key): order and repetition cannot matter *)
+  bdc_looks_ok c buf disk (bdc_session c) &&
   forallb (fun ct =>
     let d' := bd_data_over (bdc_old c) (firstn (bdc_cut_d ct) (bd_data db)) in
     let h' := firstn (bdc_cut_h ct) hfile in
